@@ -6,10 +6,10 @@ from vlib.core import natlist
 OBLIGATIONS = dict(
     prop_file='Properties/C10.v',
     glue=[f'Glue/Pin_{n}.v' for n in ('pat_vq_forward', 'pat_vq_split', 'pat_vq_decode', 'pat_euclid_forward', 'pat_cosine_forward', 'pat_fsq_forward', 'pat_fsq_decode',
-                                      'pat_lfq_forward', 'pat_lfq_decode', 'pat_rvq_decode', 'pat_simvq_forward')] + ['Glue/EinopsGlueBase.v', 'Glue/EinopsGlueHeads.v', 'Glue/EinopsGlueLayout.v', 'Glue/EinopsGlueScalar.v', 'Glue/EinopsGlueMore.v'],
+                                      'pat_lfq_forward', 'pat_lfq_decode', 'pat_rvq_decode', 'pat_simvq_forward')] + ['Glue/EinopsGlueBase.v', 'Glue/EinopsGlueHeads.v', 'Glue/EinopsGlueLayout.v', 'Glue/EinopsGlueScalar.v', 'Glue/EinopsGlueMore.v'] + ['Glue/Pin_fp_C10.v'],
     extra=['Model/Layout.vo', 'Model/Forward.vo', 'Model/EinopsCheck.vo'],
     gen_items=['pat_vq_forward', 'pat_vq_split', 'pat_vq_decode', 'pat_euclid_forward', 'pat_cosine_forward', 'pat_fsq_forward', 'pat_fsq_decode', 'pat_lfq_forward',
-               'pat_lfq_decode', 'pat_rvq_decode', 'pat_simvq_forward', 'pr_vq', 'pr_scalar', 'pr_more'],
+               'pat_lfq_decode', 'pat_rvq_decode', 'pat_simvq_forward', 'pr_vq', 'pr_scalar', 'pr_more', 'fp_C10'],
 )
 ASSUMPTIONS = [
     'einops rearrange / repeat semantics = Model/Einops.v (row-major grouped axes, `...` as one flattened axis): the pattern strings regenerated from the source are interpreted in Coq and proved equal to the index maps of Model/Layout.v; '
